@@ -1300,6 +1300,34 @@ fn node_ref<'a>(doc: &'a [Node], path: &[usize]) -> &'a Node {
     n
 }
 
+/// the rules a returned glyph must satisfy whatever the document was (C12_returned_glyph_rules)
+fn returned_glyph_breaks_rules(g: &norad::Glyph, ver: u32) -> Option<String> {
+    if g.contours.iter().any(|c| c.points.is_empty()) {
+        return Some("a contour without points".into());
+    }
+    let mut ids: Vec<String> = Vec::new();
+    ids.extend(g.anchors.iter().filter_map(|a| a.identifier().map(|i| i.as_str().to_string())));
+    ids.extend(g.guidelines.iter().filter_map(|a| a.identifier().map(|i| i.as_str().to_string())));
+    ids.extend(g.components.iter().filter_map(|a| a.identifier().map(|i| i.as_str().to_string())));
+    for c in &g.contours {
+        ids.extend(c.identifier().map(|i| i.as_str().to_string()));
+        ids.extend(c.points.iter().filter_map(|p| p.identifier().map(|i| i.as_str().to_string())));
+    }
+    let n = ids.len();
+    ids.sort();
+    ids.dedup();
+    if ids.len() != n {
+        return Some("identifiers not unique within the glyph".into());
+    }
+    if g.lib.contains_key("public.objectLibs") {
+        return Some("public.objectLibs left in the lib".into());
+    }
+    if ver == 1 && g.contours.iter().any(|c| c.points.len() == 1 && c.points[0].typ == norad::PointType::Move && c.points[0].name.is_some()) {
+        return Some("format 1: a single named move point was not turned into an anchor".into());
+    }
+    None
+}
+
 fn node_of_json(v: &serde_json::Value) -> Node {
     let arr = v.as_array().expect("node");
     let tag = arr[0].as_str().unwrap_or("");
@@ -1322,14 +1350,15 @@ fn node_of_json(v: &serde_json::Value) -> Node {
 }
 
 fn emit(out: &mut String, id: i64, ver: u32, label: &Label, doc: &[Node], xml: &str, corpus: &str) {
-    let (tm, short, _) = parse_outcome(xml.as_bytes());
+    let (tm, short, parsed) = parse_outcome(xml.as_bytes());
+    let rules = parsed.as_ref().and_then(|g| returned_glyph_breaks_rules(g, ver)).unwrap_or_default();
     let (c14, c16, c17) = (f14(doc), f16(doc), f17(doc));
     let tm = Xt::L(vec![tm, Xt::L(vec![Xt::b(label.legal), Xt::b(c14), Xt::b(c16), Xt::b(c17)])]);
     let tbl = pf_table(doc);
     let _ = std::fmt::Write::write_fmt(
         out,
         format_args!(
-            "{{\"id\":{},\"ver\":{},\"inj\":{},\"legal\":{},\"class\":{},\"f14\":{},\"f16\":{},\"f17\":{},\"impl\":{},\"case\":{},\"exp\":{},\"xml\":{},\"corpus\":{}}}\n",
+            "{{\"id\":{},\"ver\":{},\"inj\":{},\"legal\":{},\"class\":{},\"f14\":{},\"f16\":{},\"f17\":{},\"rules\":{},\"impl\":{},\"case\":{},\"exp\":{},\"xml\":{},\"corpus\":{}}}\n",
             id,
             ver,
             json_str(&label.inj),
@@ -1338,6 +1367,7 @@ fn emit(out: &mut String, id: i64, ver: u32, label: &Label, doc: &[Node], xml: &
             c14,
             c16,
             c17,
+            json_str(&rules),
             json_str(&short),
             json_str(&Xt::L(vec![xt_doc(doc), xt_pf_table(&tbl)]).packed()),
             json_str(&tm.packed()),
